@@ -38,13 +38,15 @@ class FakeSerialAsyncio:
     def __init__(self, world, device):
         self.world = world
         self.device = device
+        self.second = None            # another serial gateway (url ending in "B") in the same process
         self.connections = 0
 
     async def create_serial_connection(self, loop=None, protocol_factory=None,
                                        url=None, **kw):
         proto = protocol_factory()
-        tr = FakeTransport(self.world.loop, proto, self.device)
-        self.device.attach(proto, tr)
+        dev = self.second if (getattr(self, "second", None) is not None and str(url).endswith("B")) else self.device
+        tr = FakeTransport(self.world.loop, proto, dev)
+        dev.attach(proto, tr)
         self.connections += 1
         self.world.loop.call_soon(proto.connection_made, tr)
         return tr, proto
